@@ -7,7 +7,7 @@ import time
 from . import astdb
 
 VERIF = astdb.VERIF
-EVIDENCE_DIR = os.path.join(VERIF, 'evidence')
+EVIDENCE_DIR = os.environ.get('VERIF_EVIDENCE_DIR') or os.path.join(VERIF, 'evidence')
 VIOL_DIR = os.path.join(EVIDENCE_DIR, 'violations')
 KNOWN = os.path.join(VERIF, 'known_findings.json')
 
